@@ -143,16 +143,41 @@ FIBER_CALLEES = ['janet_mark', 'janet_mark_many', 'janet_mark_function', 'janet_
 unit('gc.mark.fiber',
      'janet_mark_fiber: every fiber of the child chain up to the first already-marked one is marked on exit and for the ghost-selected fiber: janet_mark(last_value); the argument stack '
      'data[stackstart..stacktop) is handed to janet_mark_many; for the ghost-selected frame of its frame chain janet_mark_function(func) and janet_mark_funcenv(env) are called when non-NULL and '
-     'the frame\'s slots data[i..j) are handed to janet_mark_many; janet_mark_table(env); janet_mark_abstract for the supervisor channel and for ev_stream; ev_callback(fiber, MARK)',
-     'gc_mark_fiber.c', 'h_mark_fiber', cls='bounded',
-     bound='at most 3 frames per fiber and at most 2 fibers in the child chain (data-dependent frame indices / pointer-chasing loop, DESIGN R14); stack capacity symbolic up to 2^20 slots; unwind 4 with unwinding assertions',
-     enforce=['janet_mark_fiber/janet_mark_fiber_spec'], replace=rep(*FIBER_CALLEES), functions=['janet_mark_fiber'],
-     unwind=4, timeout=300,
-     assumes=[', '.join(FIBER_CALLEES) + ' ' + REC, 'the only JanetEVCallback of the unit is the recording callback vc_ev_cb'],
-     mutants=[dict(name='no-last-value', file='gc.c', find='    janet_mark(fiber->last_value);\n', replace='', expect='postcondition'),
-              dict(name='args-from-frame', file='gc.c', find='    janet_mark_many(fiber->data + fiber->stackstart,\n                    fiber->stacktop - fiber->stackstart);', replace='    janet_mark_many(fiber->data + fiber->stackstart,\n                    fiber->stacktop - fiber->stackstart - 1);', expect='postcondition'),
-              dict(name='frame-slots-short', file='gc.c', find='        j = i - JANET_FRAME_SIZE;\n        i = frame->prevframe;\n    }\n\n    if (fiber->env)', replace='        j = i - JANET_FRAME_SIZE - 1;\n        i = frame->prevframe;\n    }\n\n    if (fiber->env)', expect='postcondition'),
-              dict(name='no-frame-env', file='gc.c', find='        if (NULL != frame->env)\n            janet_mark_funcenv(frame->env);\n', replace='', expect='postcondition'),
-              dict(name='no-supervisor', file='gc.c', find='    if (fiber->supervisor_channel) {\n        janet_mark_abstract(fiber->supervisor_channel);\n    }\n', replace='', expect='postcondition'),
-              dict(name='no-child', file='gc.c', find='    if (fiber->child) {\n        fiber = fiber->child;\n        goto recur;\n    }\n', replace='', expect='postcondition')])
+     'the frame\'s slots data[i..j) are handed to janet_mark_many; janet_mark_table(env); janet_mark_abstract for the supervisor channel and for ev_stream; ev_callback(fiber, MARK); '
+     'every frame-header read stays inside the stack',
+     'gc_mark_fiber.c', 'h_mark_fiber', cls='bounded', mode='plain',
+     bound='at most 3 frames per fiber, at most 2 fibers in the child chain, stacks of 24 slots with arbitrary contents (data-dependent frame indices / pointer-chasing loop, DESIGN R14); unwind 4 with unwinding assertions',
+     replace_calls=['janet_mark:rec_mark', 'janet_mark_many:rec_many', 'janet_mark_function:rec_function', 'janet_mark_funcenv:rec_funcenv', 'janet_mark_table:rec_table', 'janet_mark_abstract:rec_abstract'],
+     functions=['janet_mark_fiber'], unwind=4, timeout=300,
+     checks=['bounds-check', 'pointer-check', 'signed-overflow-check'],
+     assumes=[', '.join(FIBER_CALLEES) + ' are replaced by stubs that record their argument(s) in ghost state and write nothing else', 'the only JanetEVCallback of the unit is the recording callback vc_ev_cb'],
+     mutants=[dict(name='no-last-value', file='gc.c', find='    janet_mark(fiber->last_value);\n', replace='', expect='C01 mark_fiber'),
+              dict(name='args-short', file='gc.c', find='    janet_mark_many(fiber->data + fiber->stackstart,\n                    fiber->stacktop - fiber->stackstart);', replace='    janet_mark_many(fiber->data + fiber->stackstart,\n                    fiber->stacktop - fiber->stackstart - 1);', expect='C01 mark_fiber'),
+              dict(name='frame-slots-short', file='gc.c', find='        j = i - JANET_FRAME_SIZE;\n        i = frame->prevframe;\n    }\n\n    if (fiber->env)', replace='        j = i - JANET_FRAME_SIZE - 1;\n        i = frame->prevframe;\n    }\n\n    if (fiber->env)', expect='C01 mark_fiber'),
+              dict(name='no-frame-env', file='gc.c', find='        if (NULL != frame->env)\n            janet_mark_funcenv(frame->env);\n', replace='', expect='C01 mark_fiber'),
+              dict(name='no-supervisor', file='gc.c', find='    if (fiber->supervisor_channel) {\n        janet_mark_abstract(fiber->supervisor_channel);\n    }\n', replace='', expect='C01 mark_fiber'),
+              dict(name='no-child', file='gc.c', find='    if (fiber->child) {\n        fiber = fiber->child;\n        goto recur;\n    }\n', replace='', expect='C01 mark_fiber')])
+
+WALK_BOUND = 'ranges of at most 8 elements / buckets with arbitrary contents (pointer-walking loop, DESIGN R14); unwind 9 with unwinding assertion'
+WALK_CHECKS = ['bounds-check', 'pointer-check', 'signed-overflow-check', 'pointer-overflow-check']
+for w, what, muts in [
+    ('many', 'janet_mark_many: janet_mark is called for every element values[g] of the range handed over (ghost index) and exactly n times; no read outside [values, values + n)',
+     [dict(name='skips-first', file='gc.c', find='    const Janet *end = values + n;\n    while (values < end) {\n        janet_mark(*values);', replace='    const Janet *end = values + n;\n    values += 1;\n    while (values < end) {\n        janet_mark(*values);', expect='C01 walker'),
+      dict(name='stride-two', file='gc.c', find='        janet_mark(*values);\n        values += 1;', replace='        janet_mark(*values);\n        values += 2;', expect='C01 walker')]),
+    ('keys', 'janet_mark_keys: janet_mark is called for the key of every bucket kvs[g] of the range handed over (ghost index) and exactly n times; no read outside the range',
+     [dict(name='marks-values-instead', file='gc.c', find='static void janet_mark_keys(const JanetKV *kvs, int32_t n) {\n    const JanetKV *end = kvs + n;\n    while (kvs < end) {\n        janet_mark(kvs->key);', replace='static void janet_mark_keys(const JanetKV *kvs, int32_t n) {\n    const JanetKV *end = kvs + n;\n    while (kvs < end) {\n        janet_mark(kvs->value);', expect='C01 walker')]),
+    ('values', 'janet_mark_values: janet_mark is called for the value of every bucket kvs[g] of the range handed over (ghost index) and exactly n times; no read outside the range',
+     [dict(name='marks-keys-instead', file='gc.c', find='static void janet_mark_values(const JanetKV *kvs, int32_t n) {\n    const JanetKV *end = kvs + n;\n    while (kvs < end) {\n        janet_mark(kvs->value);', replace='static void janet_mark_values(const JanetKV *kvs, int32_t n) {\n    const JanetKV *end = kvs + n;\n    while (kvs < end) {\n        janet_mark(kvs->key);', expect='C01 walker')]),
+    ('kvs', 'janet_mark_kvs: janet_mark is called for the key and for the value of every bucket kvs[g] of the range handed over (ghost index) and exactly 2n times; no read outside the range',
+     [dict(name='value-not-marked', file='gc.c', find='        janet_mark(kvs->key);\n        janet_mark(kvs->value);\n        kvs++;', replace='        janet_mark(kvs->key);\n        kvs++;', expect='C01 walker'),
+      dict(name='end-off-by-one', file='gc.c', find='static void janet_mark_kvs(const JanetKV *kvs, int32_t n) {\n    const JanetKV *end = kvs + n;', replace='static void janet_mark_kvs(const JanetKV *kvs, int32_t n) {\n    const JanetKV *end = kvs + n - 1;', expect='C01 walker')]),
+]:
+    unit('gc.walk.' + w, what, 'gc_walk.c', 'h_walk_' + w, cls='bounded', mode='plain', bound=WALK_BOUND,
+         replace_calls=['janet_mark:rec_mark'], functions=['janet_mark_' + w], unwind=9, checks=WALK_CHECKS,
+         assumes=['janet_mark is replaced by a stub that records its argument in ghost state'], mutants=muts)
+unit('gc.walk.many.null', 'janet_mark_many on a NULL base (array without storage, neutralised closure environment) marks nothing and reads nothing, whatever the count',
+     'gc_walk.c', 'h_walk_many_null', cls='full-domain', mode='plain',
+     replace_calls=['janet_mark:rec_mark'], functions=['janet_mark_many'], unwind=2, checks=WALK_CHECKS,
+     assumes=['janet_mark is replaced by a stub that records its argument in ghost state'],
+     mutants=[dict(name='no-null-test', file='gc.c', find='    if (values == NULL)\n        return;\n', replace='', expect='C01 walker|pointer|unwind')])
 
